@@ -96,7 +96,7 @@ int main(int argc, char ** argv) {
         wd::arm(120, "tsan-session");
         // every fourth case: two independent sessions (two files, two application threads) at the same time
         SessOut so;
-        if (idx % 4 == 3) { SessOut so2; std::thread t([&] { so2 = one_session(seed, idx + 1000003, path + ".b"); }); so = one_session(seed, idx, path); t.join(); objects += so2.objects; polls += so2.polls; two_at_once++; unlink((path + ".b").c_str()); }
+        if (idx % 16 >= 4 && idx % 16 < 8) { SessOut so2; std::thread t([&] { so2 = one_session(seed, idx + 1000000 + (idx / 16) % 4, path + ".b"); });   /* every kind gets a partner of every kind */ so = one_session(seed, idx, path); t.join(); objects += so2.objects; polls += so2.polls; two_at_once++; unlink((path + ".b").c_str()); }
         else so = one_session(seed, idx, path);
         objects += so.objects; polls += so.polls;
         std::ostringstream cfg; cfg << so.cfg;
